@@ -95,6 +95,7 @@ structure Mod where
   inCtx : Bool := true             -- still in its context's module table
   pipe : Option (List Msg) := none -- mailbox (the pub/sub pipe); none while closed
   pipePolled : Bool := false
+  pipeGen : Nat := 0        -- how many pipes the module has had (each start creates a new one, with a new PS source)
   srcs : List SrcId := []          -- registered sources (all kinds but subscriptions)
   subs : List SrcId := []          -- subscriptions
   batchLen : Nat := 0
